@@ -308,6 +308,89 @@ def ensured(chk):
                 chk.proven('C02-R5', CAT, CLS + '_setup_fields', key, f'required {sorted(need)} subset of ensured {sorted(ens)}')
     if count == 0:
         raise AnalysisError('no configuration evaluated')
+    _passthrough_fields(chk, setup, users)
+    # the list of cleaning files is empty when cleaned=False: its first element may only be taken under a test that implies it exists
+    rh = src.func(CAT, CLS + '_read_halo_info')
+    bad = []
+    nsub = 0
+    for n in walk_no_nested(rh):
+        if isinstance(n, ast.Subscript) and unparse(n.value) == 'cleaned_afs' and not isinstance(n.slice, ast.Slice):
+            nsub += 1
+            q, guarded, child = getattr(n, '_parent', None), False, n
+            while q is not None and q is not rh:
+                if isinstance(q, ast.IfExp) and child is q.body and any(isinstance(x, ast.Name) and x.id in ('cleaned', 'cleaned_afs') for x in ast.walk(q.test)):
+                    guarded = True
+                if isinstance(q, ast.If) and child in q.body and any(isinstance(x, ast.Name) and x.id in ('cleaned', 'cleaned_afs', 'cleaned_fields') for x in ast.walk(q.test)) \
+                        and not (isinstance(q.test, ast.UnaryOp) and isinstance(q.test.op, ast.Not)):
+                    guarded = True
+                if isinstance(q, ast.For) and child in q.body and unparse(q.iter) in ('cleaned_fields',):
+                    guarded = True      # only entered when a cleaning column was selected, i.e. cleaned
+                child, q = q, getattr(q, '_parent', None)
+            if not guarded:
+                bad.append(n)
+    chk.check(not bad, 'C02-R5', CAT, CLS + '_read_halo_info', 'cleaned_afs[k] is taken only where a cleaning file exists (cleaned=True)', f'{nsub} subscript(s)',
+              f'{unparse(bad[0])[:40] if bad else ""} at line {src.orig_line_of(CAT, bad[0]) if bad else 0} is evaluated also when cleaned=False, where the list of cleaning files is empty: IndexError '
+              '(passthrough with cleaned=False cannot load)', node=bad[0] if bad else rh, nontrivial=False)
+
+
+def _passthrough_fields(chk, setup, users):
+    """The passthrough branch of _setup_fields, evaluated (constant propagation, nothing is run) on a synthetic pair of raw
+    tables for every (cleaned, loaded subsamples, request): it must not fail, must keep every requested column that a table
+    has -- halo_info and cleaning columns alike -- and must hand the subsample code the index columns it reads."""
+    from ..core.pe import PE, Raised, Undecided, UNKNOWN
+    src = chk.src
+    argn = [a.arg for a in setup.args.args]
+    for cleaned in (True, False):
+        for load_AB in ([], ['A'], ['A', 'B']):
+            need = set()
+            for u in users:
+                k2 = KeyCollector('self.halos').run(src.func(CAT, u), dict(cleaned=cleaned, load_AB=load_AB, AB=None))
+                need |= {k for k, _ in k2.reads + k2.removes}
+            if not load_AB:
+                need = set()
+            halo_cols = ['id', 'N', 'x_L2com'] + [f'{a}{ab}' for ab in 'AB' for a in ('npstart', 'npout')]
+            clean_cols = ['N_total', 'haloindex'] + [f'{a}{ab}_merge' for ab in 'AB' for a in ('npstart', 'npout')]
+            halo = {'data': {k: 0 for k in halo_cols}}
+            clean = {'data': {k: 0 for k in clean_cols}}
+            tabs_ = dtype_tables(src)
+            clean_default = [n for n, _, _ in tabs_.get('clean_dt', [])]
+            for req in ('all', ['id', 'haloindex'], 'id', 'DEFAULT_FIELDS'):
+                env = dict(fields=(list(req) if isinstance(req, list) else req), cleaned=cleaned, load_AB=list(load_AB), halo_lc=False, passthrough=True,
+                           halo_info_af=halo, cleaned_halo_info_af=(clean if cleaned else None))
+                env = {k: v for k, v in env.items() if k in argn}
+                key = f'passthrough, cleaned={cleaned}, load_AB={"".join(load_AB) or "-"}, fields={req!r}'
+                pe = PE({}, text_env={'self.data_key': 'data', 'clean_dt.names': tuple(clean_default), 'user_dt.names': tuple(n for n, _, _ in tabs_.get('user_dt', [])),
+                                      'clean_dt_progen.names': tuple(n for n, _, _ in tabs_.get('clean_dt_progen', []))})
+                try:
+                    got = pe.run(setup.body, env)
+                except Raised as r:
+                    chk.refuted('C02-R5', CAT, CLS + '_setup_fields', key,
+                                f'the field selection raises ({r.kind}) in this configuration' +
+                                (': there is no cleaning file when cleaned=False (the caller passes None), yet it is subscripted' if not cleaned else ''),
+                                node=setup, witness=dict(passthrough=True, cleaned=cleaned, load_subsamples=''.join(load_AB), fields=req))
+                    continue
+                except Undecided as u:
+                    chk.unknown('C02-R5', CAT, CLS + '_setup_fields', key, f'not decided: {u}', node=setup)
+                    continue
+                if not (isinstance(got, tuple) and len(got) == 2 and all(isinstance(x, list) for x in got)):
+                    chk.unknown('C02-R5', CAT, CLS + '_setup_fields', key, f'result not a pair of lists: {got!r}'[:100], node=setup)
+                    continue
+                f_, c_ = got
+                if req == 'all':
+                    want_req = set(halo_cols) | (set(clean_cols) if cleaned else set())
+                elif req == 'DEFAULT_FIELDS':
+                    # the default set of the unpacked catalog: every halo_info column, and the cleaning columns of clean_dt
+                    want_req = set(halo_cols) | ({c for c in clean_cols if c in clean_default} if cleaned else set())
+                else:
+                    want_req = set([req] if isinstance(req, str) else req)
+                lost = sorted((want_req & set(halo_cols)) - set(f_)) + sorted((want_req & set(clean_cols)) - set(c_) if cleaned else [])
+                avail = set(halo_cols) | (set(clean_cols) if cleaned else set())
+                missing = sorted((need & avail) - set(f_) - set(c_))
+                chk.check(not lost and not missing, 'C02-R5', CAT, CLS + '_setup_fields', key, f'fields={f_[:4]}.. cleaned_fields={c_[:4]}..',
+                          (f'the default set is not recognised in passthrough mode (\'DEFAULT_FIELDS\' is taken for a column name): {lost[:6]}.. are not selected; ' if lost and req == 'DEFAULT_FIELDS' else
+                           f'requested columns {lost} present in the files are not selected (the request list is overwritten before the cleaning columns are matched against it); ' if lost else '') +
+                          (f'the subsample code reads {missing}, which the selection does not add: KeyError' if missing else ''), node=setup,
+                          witness=dict(passthrough=True, cleaned=cleaned, load_subsamples=''.join(load_AB), fields=req), nontrivial=False)
 
 
 def KeyCollectorVal(kc, node):
